@@ -103,18 +103,24 @@ Definition set_clear (n : node) : node :=
 (* TSD: TSDSlotStorage *)
 Definition flags0 : sflags := mkF true false false false false.
 
-(* insert_key *)
+(* insert_key.  A pending-erase slot is resurrected together with its child; the repaired rule
+   (restore_modified_on_resurrection): if the resurrected slot's value is published and its child
+   was modified in this cycle, the slot is marked modified again (remove_key cleared the mark and
+   the child, already marked this cycle, will not notify a second time). *)
+Definition resurrect_flags (f : sflags) (c : node) : sflags :=
+  if f_removed f then mkF true (f_added f) false (f_modified f) true
+  else if nvalid c then mkF true true false (f_modified f) true
+  else mkF true (f_added f) false (f_modified f) (f_published f).
+Definition restore_modified (f : sflags) (c : node) : sflags :=
+  if f_published f && nmod c then mkF (f_live f) (f_added f) (f_removed f) true (f_published f) else f.
+
 Definition dict_at (e : shape) (k : Z) (n : node) : node :=
   match n with
   | NDict _ _ items =>
       match get k items with
       | Some (f, c) =>
           if f_live f then n
-          else
-            let f' := if f_removed f then mkF true (f_added f) false (f_modified f) true
-                      else if nvalid c then mkF true true false (f_modified f) true
-                      else mkF true (f_added f) false (f_modified f) (f_published f) in
-            NDict true true (put k (f', c) items)
+          else NDict true true (put k (restore_modified (resurrect_flags f c) c, c) items)
       | None => NDict true true (put k (flags0, fresh e) items)
       end
   | _ => n
@@ -493,6 +499,23 @@ Definition replay_step (sh : shape) (buf : buffer) (i : nat) (out : node) : node
   | _ => commit sh out
   end.
 
+(* the SPARSE, absolute-time recording (sparse_record_impl: one (time, delta) entry per modified
+   cycle, no observability filter) and its replay (replay_impl::eval, branch with an explicit
+   recordable_id): at [now] entries older than [now] are skipped, entries at [now] applied, and
+   the node re-arms itself for the time of the next entry *)
+Definition sbuffer := list (Z * delta).
+Definition srecorder (sh : shape) (t : Z) (live : node) (buf : sbuffer) : sbuffer :=
+  if nmod live then buf ++ [(t, capture sh live)] else buf.
+
+Fixpoint sparse_scan (sh : shape) (now : Z) (ents : sbuffer) (out : node) : sbuffer * node :=
+  match ents with
+  | [] => ([], out)
+  | (w, d) :: r =>
+      if w <? now then sparse_scan sh now r out
+      else if now <? w then (ents, out)
+      else sparse_scan sh now r (apply sh out d)
+  end.
+
 (* ------------------------------------------------------------------ the driver's cases *)
 Fixpoint parse_shape (fuel : nat) (l : list Z) : option (shape * list Z) :=
   match fuel with
@@ -573,7 +596,7 @@ Fixpoint dup_push (seen : list (Z * list Z)) (ops : list (Z * sop)) : bool :=
 
 Definition case_ok (c : tcase) (sh : shape) : bool :=
   negb (c_bad c) && (1 <=? c_start c) && (c_start c <? c_end c) && (c_end c <=? c_start c + 1000) &&
-  ((c_mode c =? 0) || ((c_mode c =? 1) && (1 <=? c_rstart c) && (c_rstart c <? c_rend c) && (c_rend c <=? c_rstart c + 1000))) &&
+  ((c_mode c =? 0) || (((c_mode c =? 1) || (c_mode c =? 2)) && (1 <=? c_rstart c) && (c_rstart c <? c_rend c) && (c_rend c <=? c_rstart c + 1000))) &&
   forallb (fun to => (c_start c <=? fst to) && (fst to <? c_end c) && op_ok (o_path (snd to)) sh (o_code (snd to))) (c_ops c) &&
   negb (dup_push [] (c_ops c)).
 
@@ -627,6 +650,38 @@ Fixpoint run_replay (sh : shape) (buf : buffer) (fuel i : nat) (t tend : Z) (out
         ((if nmod out' then probe_lines 100 sh t out' else []) ++ w, b)
   end.
 
+(* mode 2: the same two runs through the sparse recording *)
+Fixpoint run_srecord (sh : shape) (ts : list Z) (ops : list (Z * sop)) (src : node) (buf : sbuffer) : wire * sbuffer :=
+  match ts with
+  | [] => ([], buf)
+  | t :: ts' =>
+      let live := run_ops sh (ops_at t ops) (commit sh src) in
+      let buf' := srecorder sh t live buf in
+      let (w, b) := run_srecord sh ts' ops live buf' in
+      ((if nmod live then probe_lines 0 sh t live else []) ++ w, b)
+  end.
+
+Fixpoint run_sreplay (sh : shape) (fuel : nat) (now tend : Z) (ents : sbuffer) (out : node) (buf2 : sbuffer) : wire * sbuffer :=
+  match fuel with
+  | O => ([], buf2)
+  | S fuel' =>
+      if tend <=? now then ([], buf2)
+      else
+        let (ents', out') := sparse_scan sh now ents (commit sh out) in
+        let buf2' := srecorder sh now out' buf2 in
+        let lines := if nmod out' then probe_lines 100 sh now out' else [] in
+        match ents' with
+        | (w, _) :: _ =>
+            if now <? w then
+              let (wr, b) := run_sreplay sh fuel' w tend ents' out' buf2' in (lines ++ wr, b)
+            else (lines, buf2')
+        | [] => (lines, buf2')
+        end
+  end.
+
+Definition sbuffer_lines (code : Z) (sh : shape) (buf : sbuffer) : wire :=
+  map (fun ie => code :: fst ie :: fst (snd ie) :: enc_delta sh (snd (snd ie))) (index_from 0 buf).
+
 Definition buffer_lines (code : Z) (sh : shape) (buf : buffer) : wire :=
   map (fun ie => code :: fst ie :: match snd ie with Some d => enc_delta sh d | None => [0] end) (index_from 0 buf).
 
@@ -638,6 +693,10 @@ Definition run_delta (w : wire) : wire :=
       if case_ok c sh then
         if c_mode c =? 0 then
           run_probe sh (times (c_ops c)) (c_ops c) (fresh sh) (fresh sh) ++ [[28; 0]]
+        else if c_mode c =? 2 then
+          let (w1, buf) := run_srecord sh (times (c_ops c)) (c_ops c) (fresh sh) [] in
+          let (w2, buf2) := run_sreplay sh (S (length buf)) (c_rstart c) (c_rend c) buf (fresh sh) [] in
+          w1 ++ sbuffer_lines 31 sh buf ++ w2 ++ sbuffer_lines 131 sh buf2 ++ [[28; 0]]
         else
           let (w1, buf) := run_record sh (times (c_ops c)) (c_ops c) (fresh sh) [] in
           let (w2, buf2) := run_replay sh buf (length buf) 0 (c_rstart c) (c_rend c) (fresh sh) [] in
